@@ -85,7 +85,7 @@ def finish(meta, src, seed):
     dst = os.path.join(VERIF, "seeded", seed)
     os.makedirs(dst, exist_ok=True)
     for f in ("patch.diff", "demo.py", "notes.md"):
-        if os.path.exists(os.path.join(src, f)):
+        if os.path.exists(os.path.join(src, f)) and os.path.realpath(os.path.join(src, f)) != os.path.realpath(os.path.join(dst, f)):
             shutil.copy(os.path.join(src, f), os.path.join(dst, f))
     notes = os.path.join(src, "notes.md")
     if os.path.exists(notes):
